@@ -760,6 +760,24 @@ def rule_opt_is_none_or(text, ctx, where):
     return _opt_method(text, "is_none_or", build, where)
 
 
+def rule_opt_unwrap_or_else(text, ctx, where):
+    """`X.unwrap_or_else(|| E)` on an Option -> `(match X { Some(__u) => __u, None => E })`"""
+    def build(recv, arg):
+        a = arg.strip()
+        if not a.startswith("||"):
+            raise AnchorLost(f"{where}: unwrap_or_else with a non-closure argument")
+        return f"(match {recv} {{ Some(__u) => __u, None => {a[2:].strip()} }})"
+    return _opt_method(text, "unwrap_or_else", build, where)
+
+
+def rule_opt_filter(text, ctx, where):
+    """`X.filter(|v| E)` on an Option -> `(match X { Some(v) => if E { Some(v) } else { None }, None => None })`  (v is a reference in E, as in std)"""
+    def build(recv, arg):
+        pat, body = _split_closure(arg)
+        return f"(match {recv} {{ Some(__f) => {{ let keep = {{ let {pat} = &__f; {body} }}; if keep {{ Some(__f) }} else {{ None }} }}, None => None }})"
+    return _opt_method(text, "filter", build, where)
+
+
 def rule_map_err_plain(text, ctx, where):
     """`EXPR.map_err(|e| BODY)` (NOT followed by `?`)  ->  `(match EXPR { Ok(__v) => Ok(__v), Err(e) => Err(BODY) })`"""
     def build(recv, arg):
@@ -948,7 +966,7 @@ def rule_mem_take(text, ctx, where):
     return re.subn(r"\b(?:std::|core::)?mem::take\(\s*&mut\s+", "vec_take(&mut ", text)
 
 
-RULES = {"iter_find_map_fn": rule_iter_find_map_fn, "opt_is_none_or": rule_opt_is_none_or, "map_err_plain": rule_map_err_plain, "opt_is_some_and": rule_opt_is_some_and, "mem_take": rule_mem_take, "box_as_ref": rule_box_as_ref, "vec_retain": rule_vec_retain, "str_methods": rule_str_methods, "opt_and_then": rule_opt_and_then, "let_chain_rev": rule_let_chain_rev, "iter_find_map": rule_iter_find_map, "iter_rfind_map": rule_iter_rfind_map, "iter_all": rule_iter_all, "let_chain": rule_let_chain, "entry_or_insert_with": rule_entry_or_insert_with, "for_into_iter": rule_for_into_iter, "iter_map_collect": rule_iter_map_collect, "ok_or_else_q": rule_ok_or_else_q, "for_zip": rule_for_zip, "msg_to_string": rule_msg_to_string, "for_consume": rule_for_consume, "for_entries": rule_for_entries, "opt_map": rule_opt_map, "opt_or_else": rule_opt_or_else, "closure_inline": rule_closure_inline, "unreachable_partial": rule_unreachable_partial, "assert_partial": rule_assert_partial, "for_index": rule_for_index, "map_err_q": rule_map_err_q, "iter_any": rule_iter_any, "opt_map_or": rule_opt_map_or, "mutself": rule_mutself, "fmtmsg": rule_fmtmsg, "pubfields": rule_pubfields, "T": rule_T, "attrs": rule_attrs, "cell": rule_cell}
+RULES = {"opt_filter": rule_opt_filter, "opt_unwrap_or_else": rule_opt_unwrap_or_else, "iter_find_map_fn": rule_iter_find_map_fn, "opt_is_none_or": rule_opt_is_none_or, "map_err_plain": rule_map_err_plain, "opt_is_some_and": rule_opt_is_some_and, "mem_take": rule_mem_take, "box_as_ref": rule_box_as_ref, "vec_retain": rule_vec_retain, "str_methods": rule_str_methods, "opt_and_then": rule_opt_and_then, "let_chain_rev": rule_let_chain_rev, "iter_find_map": rule_iter_find_map, "iter_rfind_map": rule_iter_rfind_map, "iter_all": rule_iter_all, "let_chain": rule_let_chain, "entry_or_insert_with": rule_entry_or_insert_with, "for_into_iter": rule_for_into_iter, "iter_map_collect": rule_iter_map_collect, "ok_or_else_q": rule_ok_or_else_q, "for_zip": rule_for_zip, "msg_to_string": rule_msg_to_string, "for_consume": rule_for_consume, "for_entries": rule_for_entries, "opt_map": rule_opt_map, "opt_or_else": rule_opt_or_else, "closure_inline": rule_closure_inline, "unreachable_partial": rule_unreachable_partial, "assert_partial": rule_assert_partial, "for_index": rule_for_index, "map_err_q": rule_map_err_q, "iter_any": rule_iter_any, "opt_map_or": rule_opt_map_or, "mutself": rule_mutself, "fmtmsg": rule_fmtmsg, "pubfields": rule_pubfields, "T": rule_T, "attrs": rule_attrs, "cell": rule_cell}
 
 
 def apply_rules(text, rules, ctx, counts, where):
